@@ -74,7 +74,7 @@ theorem historyHub_refines_absStream (b : Broker) (hi : b.hub.Inv) (op : Op) :
     rcases publish_cases b ch data o now with ⟨p, h⟩ | ⟨hm, hh, hs⟩ | ⟨hm, hh, hs⟩ | ⟨hm, hh⟩
     · rw [publish_hit b ch data o now p h]; right; simp
     · rw [publish_skip b ch data o now hm hh hs]; right
-      exact ⟨by simp, (add_skip_spec _ ch _ o _ hs).1⟩
+      exact ⟨by simp, (add_skip_spec _ ch _ o _ hs).2.1⟩
     · rw [publish_store b ch data o now hm hh hs]; left
       obtain ⟨h1, h2⟩ := add_store_spec _ ch _ o _ hs
       exact ⟨rfl, hh, by simpa using h1, h2⟩
@@ -121,30 +121,19 @@ theorem stored_publish_offset (b : Broker) (ch data : String) (o : PubOpts) (now
   · rw [publish_skip b ch data o now hm hh' hsk] at hs; cases hs
   · rw [publish_store b ch data o now hm hh' hsk]
     simp only
-    rw [add_eq] at hsk ⊢
-    cases hst : (b.hub.chans ch).stream with
-    | some s =>
-      have hp := preAdd_stream_some b.hub ch o (now / 1000) s hst
-      by_cases hv : VersionSkip o s
-      · rw [addCore_skip _ ch _ o _ s hp hv] at hsk; cases hsk
-      · rw [addCore_store _ ch _ o _ s hp hv]
-    | none =>
-      have hp := preAdd_stream_none b.hub ch o (now / 1000) hst
-      by_cases hd : o.useDelta
-      · simp only [hd, if_true] at hp
-        have hv : ¬ VersionSkip o (MStream.new b.hub.nextEpoch) := by
-          unfold VersionSkip MStream.new; simp; omega
-        rw [addCore_store _ ch _ o _ _ hp hv]; rfl
-      · simp only [hd, Bool.false_eq_true, if_false] at hp
-        rw [addCore_new _ ch _ o _ hp]
-        have : (b.hub.preAdd ch o (now / 1000)).nextEpoch = b.hub.nextEpoch := by
-          unfold Hub.preAdd Hub.deltaRead; simp [hd]
-        rw [this]
+    rcases add_cases b.hub ch ⟨data, o.version⟩ o (now / 1000) with
+      ⟨s, hst, hv, he⟩ | ⟨s, hst, hv, he, _⟩ | ⟨hst, he, _⟩
+    · rw [he] at hsk; cases hsk
+    · rw [he, hst]
+    · rw [he, hst]
   · exact absurd hh hh'
 
-/-- **history = the retained suffix filtered by since, limit and direction** (partial: on the
-`FilterOK` domain).  Full statement — without `hf` — is false on the code: see the two
-counter-witnesses below (forward since 2^64−1, reverse since beyond top+1). -/
+/-- **history = the retained suffix filtered by since, limit and direction** on the `FilterOK`
+domain: all forward reads and reads without `since` (offsets being `uint64` values is the only
+hypothesis there — see `history_forward_eq_spec`), and reverse reads since a position up to
+`top + 1`.  Partial only in the reverse direction: a reverse read since an offset beyond `top + 1`
+returns nothing (recorded quirk, counter-witness below).
+(Before /repo commit fbc783cb the forward read since 2^64−1 was a second exception: finding C17-1.) -/
 theorem history_eq_spec_partial (b : Broker) (hi : b.hub.Inv) (ch : String) (f : Filter) (m now : Nat)
     (s : MStream Pub) (hst : (b.hub.chans ch).stream = some s) (hf : FilterOK s.top f) :
     (b.history ch f m now).2 = ((absS s).read f, ⟨s.top, s.epoch⟩) ∧ (absS s).entries = s.items := by
@@ -156,6 +145,18 @@ theorem history_eq_spec_partial (b : Broker) (hi : b.hub.Inv) (ch : String) (f :
   rw [he] at h2
   unfold Broker.history
   exact Prod.ext h1 h2
+
+/-- forward reads and reads without `since` are the specification's read for **every** request
+(the hypotheses only say that offsets are `uint64` values) -/
+theorem history_forward_eq_spec (b : Broker) (hi : b.hub.Inv) (ch : String) (f : Filter) (m now : Nat)
+    (s : MStream Pub) (hst : (b.hub.chans ch).stream = some s) (hrev : f.reverse = false)
+    (htop : s.top + 1 < u64) (hsince : ∀ p, f.since = some p → p.offset < u64) :
+    (b.history ch f m now).2 = ((absS s).read f, ⟨s.top, s.epoch⟩) := by
+  apply (history_eq_spec_partial b hi ch f m now s hst _).1
+  unfold FilterOK
+  cases hs : f.since with
+  | none => trivial
+  | some p => simp only [hrev, Bool.false_eq_true, if_false]; exact ⟨hsince p hs, htop⟩
 
 /-- the same for a channel without stream: nothing is returned, at offset 0 of a fresh epoch -/
 theorem history_no_stream (b : Broker) (ch : String) (f : Filter) (m now : Nat)
@@ -304,6 +305,8 @@ example : (demo.history "a" { since := some ⟨4, 1⟩, limit := 1, reverse := t
     ([⟨3, ⟨"d3", 0⟩⟩], ⟨3, 1⟩) := by decide
 example : FilterOK 3 { since := some ⟨4, 1⟩, limit := 1, reverse := true } := by
   simp [FilterOK, u64]
+example : FilterOK 3 { since := some ⟨u64 - 1, 1⟩, limit := -1 } := by
+  simp [FilterOK, u64]
 /-- data expiry at second 10 keeps top and epoch; meta expiry at second 60 drops the stream; the
 next publication starts at offset 1 in epoch 2 -/
 example : (((demo.tick 10).hub.chans "a").stream.map fun s => (s.top, s.epoch, s.items.length)) =
@@ -312,13 +315,13 @@ example : (((demo.tick 10).tick 60).hub.chans "a").stream = none := by decide
 example : ((((demo.tick 10).tick 60).publish "a" "d4" { size := 2, ttl := 10000 } 61500).2.pos) = ⟨1, 2⟩ := by
   decide
 
-/-- counter-witness 1 (finding C17-1): a forward read since offset 2^64−1 returns the whole retained
-stream — `since.Offset + 1` wraps to 0, the index misses, the walk starts at the front -/
-example : (demo.history "a" { since := some ⟨u64 - 1, 1⟩, limit := -1 } 0 800).2.1 =
-    [⟨2, ⟨"d2", 0⟩⟩, ⟨3, ⟨"d3", 0⟩⟩] := by decide
+/-- fixed finding C17-1: a forward read since offset 2^64−1 returns nothing, as the specification says.
+(Before /repo commit fbc783cb `since.Offset + 1` wrapped to 0, the index missed and the walk started
+at the front: the result was `[2/d2, 3/d3]`; the replay stays in props/C17/corpus.ops.) -/
+example : (demo.history "a" { since := some ⟨u64 - 1, 1⟩, limit := -1 } 0 800).2.1 = [] := by decide
 example : (absS ((demo.hub.chans "a").stream.get (by decide))).read { since := some ⟨u64 - 1, 1⟩, limit := -1 } = [] := by
   decide
-/-- counter-witness 2 (recorded quirk): a reverse read since an offset beyond `top + 1` returns
+/-- counter-witness (recorded quirk): a reverse read since an offset beyond `top + 1` returns
 nothing, although every retained offset is smaller -/
 example : (demo.history "a" { since := some ⟨9, 1⟩, limit := -1, reverse := true } 0 800).2.1 = [] := by decide
 example : (absS ((demo.hub.chans "a").stream.get (by decide))).read { since := some ⟨9, 1⟩, limit := -1, reverse := true } =
